@@ -369,10 +369,12 @@ def run(ctx):
 
     n14 = 0
     for name, m in sorted(parser.methods.items()):
+        al14 = q.direct_aliases(m)  # `options = self._options; options[name] = value`
         for n in walk_no_nested(m.node):
             subs = []
             if isinstance(n, ast.Assign):
-                subs = [t for t in n.targets if isinstance(t, ast.Subscript) and is_self_attr(t.value) and "option" in t.value.attr]
+                subs = [t for t in n.targets if isinstance(t, ast.Subscript) and ((is_self_attr(t.value) and "option" in t.value.attr)
+                                                                                  or (isinstance(t.value, ast.Name) and "option" in al14.get(t.value.id, "")))]
             for sub in subs:
                 n14 += 1
                 ok_, why = canon_key(m, sub.slice)
